@@ -168,7 +168,7 @@ def execute(ctx, plan, prop):
             react_left[0] -= 1
 
             def late_request():
-                if m.game is not None and in_workload[0]:
+                if can_add() and in_workload[0]:
                     ctx.probe("request_after_kick")
                     pf.add_ball()
                     m.game.balls_in_play += 1
@@ -189,6 +189,12 @@ def execute(ctx, plan, prop):
         elif name.startswith("balldevice_") and name.endswith("_broken"):
             broken.add(name[len("balldevice_"):-len("_broken")])
     tap_events(sim, ev_listener)
+
+    def can_add(n=1):
+        """A further ball may be requested only while the machine has one to give: the workload keeps the game's
+        balls_in_play in step with its requests, which is only meaningful without over-subscription."""
+        return (m.game is not None and m.game.balls_in_play + n <= world.total() and
+                pf.available_balls + n <= world.total())
 
     # ---- workload -------------------------------------------------------------------------------------
     games = [0]
@@ -220,13 +226,13 @@ def execute(ctx, plan, prop):
                 ctx.probe("drain")
                 world.last_drain_t = sim.now
         elif k == "add_ball_b":
-            if m.game is not None:
+            if can_add():
                 ctx.probe("second_feed_request")
                 pf.add_ball(source_device=m.ball_devices[topo["plunger_b"]])
                 m.game.balls_in_play += 1
         elif k == "request_both":
             # one ball requested from each lane at the same moment (possibly while both feeds are empty)
-            if m.game is not None:
+            if can_add(2):
                 ctx.probe("second_feed_request")
                 pf.add_ball()
                 pf.add_ball(source_device=m.ball_devices[topo["plunger_b"]])
@@ -235,7 +241,7 @@ def execute(ctx, plan, prop):
             world.loose_ball_hits(topo["pf_switches"][op["pick"] % len(topo["pf_switches"])])
         elif k == "add_ball":
             # mostly a multiball add while a ball is in play; sometimes while the first ball is still on its way
-            if m.game is not None and (len(world.loose()) >= 1 or op["pick"] == 0):
+            if can_add() and (len(world.loose()) >= 1 or op["pick"] == 0):
                 ctx.probe("multiball_add")
                 if not world.loose():
                     ctx.probe("add_ball_while_first_in_transit")
@@ -244,7 +250,7 @@ def execute(ctx, plan, prop):
                 pf.add_ball()
                 m.game.balls_in_play += 1
         elif k == "request":
-            if m.game is not None:
+            if can_add():
                 d = m.ball_devices[topo["locks"][0]] if topo["locks"] else None
                 if d is None:
                     pf.add_ball()
